@@ -93,6 +93,11 @@ pub fn worker_handle(req: &Value) -> Value {
             if req["want_geometry"].as_bool().unwrap_or(false) {
                 ev.insert("geom".into(), crate::geom::geometry_of(&m));
             }
+            if let Some(p) = req["dump_json"].as_str() {
+                // the converted model as a file, for the checks that read model files
+                let ok = m.as_json().ok().map(|js| std::fs::write(p, js).is_ok()).unwrap_or(false);
+                ev.insert("dumped".into(), json!(ok));
+            }
             if req["want_indicators"].as_bool().unwrap_or(false) {
                 // the quantities a turn of the building must leave unchanged
                 let r = catch(std::panic::AssertUnwindSafe(|| m.energy_indicators()));
